@@ -120,6 +120,7 @@ class Env:
         self.args = args or {}
         self.depth = depth
         self.caps = caps
+        self.parent = None   # the environment this one was inlined from (set by effects.iteration_effects)
         self.path = path   # call path ((caller body key, block), ...) of this inlined instance: makes call sites deterministic
         Env._n += 1
         self.id = Env._n
